@@ -28,12 +28,14 @@ MARK = "//?: is-ssb-script"
 
 
 def _programs(thorough: bool) -> list[tuple[str, str, list[list[Any]]]]:
-    from ..spec.skeletons import all_skeletons, gen_flat, gen_nested
+    from ..spec.skeletons import all_skeletons, gen_flat, gen_nested, gen_extra
     out: list[tuple[str, str, list[list[Any]]]] = []
     for i, (fam, prog) in enumerate(all_skeletons(False)):
         if thorough or i % 3 == 0:
             out.append(("general", fam, prog))
     for i, (fam, prog) in enumerate(gen_nested(thorough)):
+        out.append(("general", fam, prog))
+    for i, (fam, prog) in enumerate(gen_extra(thorough)):
         out.append(("general", fam, prog))
     for i, (fam, prog) in enumerate(gen_flat(thorough)):
         if thorough or i % 2 == 0 or fam.count("+") == 0:
@@ -65,21 +67,40 @@ def _worker(args: tuple[str, bool, int, int]) -> list[dict[str, Any]]:
     ends = set(fold.const(f"{SPECIAL}:OPS_THAT_END_CONTROL_FLOW")) - {fold.const(f"{SPECIAL}:OP_JUMP")}
     jumpish = branch | {"Jump"}
     out: list[dict[str, Any]] = []
-    for idx, (group, fam, prog) in enumerate(_programs(thorough)):
+    from .ssbs_roundtrip import _hand_made, _more_hand_made
+    progs: list[tuple[str, str, Any]] = list(_programs(thorough))
+    for hname, infos_h, ops_h, names_h in _hand_made(P) + _more_hand_made(P):
+        progs.append(("handmade", "handmade:" + hname, (infos_h, ops_h, names_h)))
+    for idx, (group, fam, prog) in enumerate(progs):
         if idx % n != k:
             continue
-        text = " ".join(f"def {i} {{ {show(r)} }}" for i, r in enumerate(prog))
-        rec: dict[str, Any] = {"group": group, "family": fam, "program": text}
-        out.append(rec)
-        try:
-            c = P.compile_exps(text)
-        except PyExc as e:
-            rec["stage"] = "not-compiled"  # meaningless or rejected programs are C01/C10's business
-            continue
-        except (Unsupported, AnalysisError) as e:
-            rec["stage"] = "unknown"
-            rec["why"] = f"compile: {e}"
-            continue
+        if group == "handmade":
+            infos_h, ops_h, names_h = prog
+            def pv(p: Any) -> str:
+                if isinstance(p, AObj):
+                    return p.cls.name.replace("SsbOpParam", "") + repr([v for k, v in sorted(p.attrs.items()) if k != "indent"])
+                return repr(p)
+            text = "routine set " + fam.split(":", 1)[1] + ": " + " | ".join(
+                " ".join(f"{op.attrs['offset']}:{op.attrs['op_code'].attrs['name']}({', '.join(pv(p) for p in op.attrs['params'])})" for op in r) for r in ops_h)
+            rec: dict[str, Any] = {"group": group, "family": fam, "program": text}
+            out.append(rec)
+
+            class _C:
+                attrs = {"routine_infos": infos_h, "routine_ops": ops_h, "named_coroutines": names_h}
+            c: Any = _C
+        else:
+            text = " ".join(f"def {i} {{ {show(r)} }}" for i, r in enumerate(prog))
+            rec = {"group": group, "family": fam, "program": text}
+            out.append(rec)
+            try:
+                c = P.compile_exps(text)
+            except PyExc as e:
+                rec["stage"] = "not-compiled"  # meaningless or rejected programs are C01/C10's business
+                continue
+            except (Unsupported, AnalysisError) as e:
+                rec["stage"] = "unknown"
+                rec["why"] = f"compile: {e}"
+                continue
         ops1 = c.attrs["routine_ops"]
         # premise of C02: no cycle that consists of Jump ops only
         tgt = {op.attrs["offset"]: op.attrs["params"][-1] for r in ops1 for op in r if op.attrs["op_code"].attrs["name"] == "Jump" and op.attrs["params"]}
@@ -108,7 +129,7 @@ def _worker(args: tuple[str, bool, int, int]) -> list[dict[str, Any]]:
         body_lines = [ln.strip() for ln in dtext.split("\n") if not ln.strip().startswith("//")]
         rec["jumps"] = sum(1 for ln in body_lines if re.match(r"^jump\s+@", ln))
         # every operation printed exactly once
-        names = sorted({op.attrs["op_code"].attrs["name"] for r in ops1 for op in r if re.match(r"^op\d+$", op.attrs["op_code"].attrs["name"])})
+        names = sorted({op.attrs["op_code"].attrs["name"] for r in ops1 for op in r if re.match(r"^(op\d+|hm_\w+)$", op.attrs["op_code"].attrs["name"])})
         rec["op_prints"] = {nm: sum(len(re.findall(rf"(?<![\w$]){nm}\s*[(<]", ln)) for ln in body_lines) for nm in names}
         # source map of the decompilation
         try:
@@ -127,7 +148,7 @@ def _worker(args: tuple[str, bool, int, int]) -> list[dict[str, Any]]:
                     sm_problems.append(f"entry {off} ({nm}) points outside the text ({ln}, {col})")
                     continue
                 rest = lines[ln][col:]
-                if re.match(r"^op\d+$", nm):
+                if re.match(r"^(op\d+|hm_\w+)$", nm):
                     entry_of[nm] = (ln, col)
                     if not rest.startswith(nm):
                         sm_problems.append(f"entry of {nm} (offset {off}) points at {rest[:25]!r} (line {ln}, column {col})")
@@ -137,6 +158,33 @@ def _worker(args: tuple[str, bool, int, int]) -> list[dict[str, Any]]:
                 for nm, cnt in rec["op_prints"].items():
                     if cnt >= 1 and nm not in entry_of:
                         sm_problems.append(f"{nm} is printed but has no source map entry")
+                # every op other than a plain Jump that can be reached is printed as (part of) a statement and has an entry
+                flat_ops = [op for r in ops1 for op in r]
+                nxt_of: dict[int, int | None] = {}
+                for r in ops1:
+                    for a_op, b_op in zip(r, list(r[1:]) + [None]):
+                        nxt_of[a_op.attrs["offset"]] = b_op.attrs["offset"] if b_op is not None else None
+                reach: set[int] = set()
+                todo = [r[0].attrs["offset"] for r in ops1 if r]
+                while todo:
+                    o = todo.pop()
+                    if o in reach or o not in by_off:
+                        continue
+                    reach.add(o)
+                    nm = by_off[o].attrs["op_code"].attrs["name"]
+                    ps = by_off[o].attrs["params"]
+                    if nm == "Jump":
+                        todo.append(ps[-1])
+                        continue
+                    if nm in branch and ps and isinstance(ps[-1], int):
+                        todo.append(ps[-1])
+                    if nm not in ends and nxt_of.get(o) is not None:
+                        todo.append(nxt_of[o])  # type: ignore[arg-type]
+                for o in sorted(reach):
+                    nm = by_off[o].attrs["op_code"].attrs["name"]
+                    # (a condition op of an `a || b` group shares the statement of the group's first op)
+                    if nm != "Jump" and nm not in branch and o not in maps:
+                        sm_problems.append(f"{nm} (offset {o}) can be reached and is printed as a statement, but has no source map entry")
             rec["sm_problems"] = sm_problems[:4]
         except (KeyError, AttributeError, TypeError) as e:
             rec["sm_problems"] = [f"source map not readable: {e!r}"]
@@ -178,7 +226,8 @@ def _worker(args: tuple[str, bool, int, int]) -> list[dict[str, Any]]:
                     lst = []
                     for op in r:
                         nm = op.attrs["op_code"].attrs["name"]
-                        ps = [I.str_strict(p) if not isinstance(p, int) else p for p in op.attrs["params"]]
+                        ps = [(p.cls.name, repr(sorted((k, v if not isinstance(v, dict) else sorted(v.items())) for k, v in p.attrs.items() if k != "indent")))
+                              if isinstance(p, AObj) else p for p in op.attrs["params"]]
                         if nm in jumpish and ps and isinstance(ps[-1], int):
                             ps[-1] = ("->", where.get(ps[-1]))
                         lst.append((nm, ps))
@@ -195,7 +244,7 @@ def _worker(args: tuple[str, bool, int, int]) -> list[dict[str, Any]]:
             for r in ops2:
                 for op in r:
                     nm = op.attrs["op_code"].attrs["name"]
-                    if re.match(r"^op\d+$", nm) and op.attrs["offset"] in sm2:
+                    if re.match(r"^(op\d+|hm_\w+)$", nm) and op.attrs["offset"] in sm2:
                         line2.setdefault(nm, []).append(sm2[op.attrs["offset"]].attrs["line"])
             mism = [f"{nm}: decompiler says line {entry_of[nm][0]}, recompilation says {line2[nm]}" for nm in entry_of if nm in line2 and entry_of[nm][0] not in line2[nm]]
             if mism and not fallback:
